@@ -215,7 +215,9 @@ def arr_getitem(I, a: Arr, key, node):
         same_len(I, a, key, node)
         m, src, rank = mask_filter(I, key)
         fa = a.at
-        return Arr(m, lambda k: fa(src(k)), a.kind, a.dtype)
+        r = Arr(m, lambda k: fa(src(k)), a.kind, a.dtype)
+        r._filtered_from = (key, fa)      # provenance: used by masked stores  x[mask] = y[mask]
+        return r
     if isinstance(key, Arr) and key.kind == "int":
         # fancy indexing: every index must be in bounds
         I.path.oblige("bounds", f"{I.path.ordinal('bounds')}",
@@ -651,6 +653,20 @@ def np_sqrt(I, x):
     return RealV(r)
 
 
+def np_abs(I, x):
+    if isinstance(x, Arr):
+        fx = x.at
+        return Arr(x.n, lambda k: z3.If(fx(k) >= 0, fx(k), -fx(k)), x.kind, x.dtype)
+    if isinstance(x, (int, float)):
+        return abs(x)
+    if isinstance(x, z3.ArithRef):
+        return z3.If(x >= 0, x, -x)
+    h = getattr(x, "pyvc_asarray", None)
+    if h is not None:
+        return np_abs(I, h(I))
+    raise Unsupported("np.abs of " + type(x).__name__)
+
+
 def np_where(I, c, a=None, b=None):
     if a is None:
         raise Unsupported("np.where with one argument")
@@ -701,7 +717,7 @@ def install(engine):
         "concatenate": F("np.concatenate", np_concatenate), "r_": R_(),
         "flatnonzero": F("np.flatnonzero", np_flatnonzero), "diff": F("np.diff", np_diff),
         "cumsum": F("np.cumsum", np_cumsum), "any": F("np.any", np_any), "all": F("np.all", np_all),
-        "sqrt": F("np.sqrt", np_sqrt), "where": F("np.where", np_where),
+        "sqrt": F("np.sqrt", np_sqrt), "where": F("np.where", np_where), "abs": F("np.abs", np_abs),
         "min": F("np.min", np_min), "max": F("np.max", np_max),
         "copy": F("np.copy", lambda I, a, **k: Arr(a.n, a.at, a.kind, a.dtype)),
         "nan": NAN, "inf": Opaque("inf"),
